@@ -58,8 +58,10 @@ LEAVES = [
 
 def contract(op, a, b, c, rem=None, lhs='self', rhs='rhs'):
     rem = rem or '%s(%s, %s, m)' % (rem_name(op, a, b), lhs, rhs)
-    return ('''%s && %s ==> %s && forall|m: Map<u64, F64>| #![trigger %s] %s == %s %s %s - %s,
-            %s.subset_of(%s.union(%s)),''' % (f(a, lhs), f(b, rhs), f(c, 'r'), v(c, 'r'), v(c, 'r'), v(a, lhs), OPSYM[op], v(b, rhs), rem,
+    # for products the commuted form is stated too (real multiplication of two spec terms: Z3 does not always normalise the order)
+    comm = (' && %s == %s %s %s - %s' % (v(c, 'r'), v(b, rhs), OPSYM[op], v(a, lhs), rem)) if op == 'mul' else ''
+    return ('''%s && %s ==> %s && forall|m: Map<u64, F64>| #![trigger %s] %s == %s %s %s - %s%s,
+            %s.subset_of(%s.union(%s)),''' % (f(a, lhs), f(b, rhs), f(c, 'r'), v(c, 'r'), v(c, 'r'), v(a, lhs), OPSYM[op], v(b, rhs), rem, comm,
                                              i(c, 'r'), i(a, lhs), i(b, rhs)))
 
 
@@ -126,16 +128,20 @@ def linear_mul_f64():
                 forall|j: int| 0 <= j < __i1 ==> (#[trigger] this.terms[j]).id == self.terms[j].id && (fin(self.terms[j].coefficient) && fin(rhs) ==> this.terms[j].coefficient@ == XR::Fin(rv(self.terms[j].coefficient) * rv(rhs))),
                 forall|j: int| __i1 <= j < this.terms.len() ==> #[trigger] this.terms[j] == self.terms[j],
             decreases this.terms.len() - __i1''')],
-                proofs=[(('before', r'this\s*\}\s*$'), '''proof { if linear_fin(self) && fin(rhs) { assert forall|m: Map<u64, F64>| #![trigger linear_val(this, m)] linear_val(this, m) == linear_val(self, m) * rv(rhs) by {
+                proofs=[(('before', r'return\s+Linear::zero\(\)\s*;'), '''proof { if fin(rhs) { assert(rv(rhs) == 0real); assert forall|m: Map<u64, F64>| #![trigger linear_val(self, m)] linear_val(self, m) * rv(rhs) == 0real by {
+                assert(linear_val(self, m) * 0real == 0real) by(nonlinear_arith); } } }
+            '''),
+                        (('before', r'this\s*\}\s*$'), '''proof { if linear_fin(self) && fin(rhs) { assert forall|m: Map<u64, F64>| #![trigger linear_val(this, m)] linear_val(this, m) == linear_val(self, m) * rv(rhs) by {
                 lemma_lin_scale(self.terms@, this.terms@, self.terms.len() as int, rv(rhs), m);
                 assert((rv(self.constant) + lin_all(self.terms@, m)) * rv(rhs) == rv(self.constant) * rv(rhs) + lin_all(self.terms@, m) * rv(rhs)) by(nonlinear_arith); }
-            lemma_lin_ids_same(self.terms@, this.terms@, self.terms.len() as int); } }
+            }
+            lemma_lin_ids_same(self.terms@, this.terms@, self.terms.len() as int); }
         ''')])
 
 
 def zero_linear():
     return [Unit('Zero::zero for Linear', 'linear.rs', 'zero', impl=r'impl Zero for Linear \{', sig='fn zero() -> Self', anyhow=False, wrap=('impl Zero for Linear {', ''),
-                 header='fn zero() -> (r: Self)\n        ensures r.terms.len() == 0, r.constant@ == XR::Fin(0real),'),
+                 header='fn zero() -> (r: Self)\n        ensures r.terms.len() == 0, r.constant@ == XR::Fin(0real), linear_ids(r) == Set::<u64>::empty(),'),
             Unit('Zero::is_zero for Linear', 'linear.rs', 'is_zero', impl=r'impl Zero for Linear \{', sig='fn is_zero(&self) -> bool', anyhow=False, wrap=('', '}'),
                  header='fn is_zero(&self) -> (r: bool)\n        ensures r == (self.terms.len() == 0 && self.constant@ == XR::Fin(0real)),')]
 
@@ -163,7 +169,7 @@ DISPATCH_REQ = 'self.function is Some && rhs.function is Some'
 def function_add():
     return Unit('Add for Function', 'v1_ext/function.rs', 'add', impl=r'impl Add for Function \{', sig='fn add(self, rhs: Self) -> Self', anyhow=False,
                 pre=spec_impl('add', 'Function', 'Function', 'Function', req=DISPATCH_REQ), wrap=('impl core::ops::Add for Function { type Output = Function;', '}'),
-                header='fn add(self, rhs: Self) -> (r: Self)\n        // every one of the 16 operand-kind pairs: the sum of the two polynomials (explicit epsilon-drop remainder), in a kind able to hold it\n        ensures is_sum(r, self, rhs),',
+                header='fn add(self, rhs: Self) -> (r: Self)\n        // every one of the 16 operand-kind pairs: the sum of the two polynomials (explicit epsilon-drop remainder), in a kind able to hold it\n        ensures r.function is Some,\n            fn_ids(r).subset_of(fn_ids(self).union(fn_ids(rhs))),\n            fn_fin(self) && fn_fin(rhs) ==> fn_fin(r),\n            fn_fin(self) && fn_fin(rhs) ==> forall|m: Map<u64, F64>| #![trigger fn_val(r, m)] fn_val(r, m) == fn_val(self, m) + fn_val(rhs, m) - add_rem(self, rhs, m),\n            is_sum(r, self, rhs),',
                 subs=[('self.function.expect(StrLit(%d))' % __import__('zlib').crc32(b'Empty Function'), 'self.function.unwrap()')] if False else [],
                 rsubs=[(r'\.expect\("Empty Function"\)', '.unwrap()', 2)])
 
@@ -171,7 +177,7 @@ def function_add():
 def function_mul():
     return Unit('Mul for Function', 'v1_ext/function.rs', 'mul', impl=r'impl Mul for Function \{', sig='fn mul(self, rhs: Self) -> Self', anyhow=False,
                 pre=spec_impl('mul', 'Function', 'Function', 'Function', req=DISPATCH_REQ), wrap=('impl core::ops::Mul for Function { type Output = Function;', '}'),
-                header='fn mul(self, rhs: Self) -> (r: Self)\n        // products that raise the degree are returned in a kind able to hold every resulting term\n        ensures is_prod(r, self, rhs),',
+                header='fn mul(self, rhs: Self) -> (r: Self)\n        // products that raise the degree are returned in a kind able to hold every resulting term\n        ensures r.function is Some,\n            fn_ids(r).subset_of(fn_ids(self).union(fn_ids(rhs))),\n            fn_fin(self) && fn_fin(rhs) ==> fn_fin(r),\n            fn_fin(self) && fn_fin(rhs) ==> forall|m: Map<u64, F64>| #![trigger fn_val(r, m)] fn_val(r, m) == fn_val(self, m) * fn_val(rhs, m) - mul_rem(self, rhs, m),\n            is_prod(r, self, rhs),',
                 rsubs=[(r'\.expect\("Empty Function"\)', '.unwrap()', 2)])
 
 
@@ -259,7 +265,12 @@ LEMMAS += '''pub proof fn lemma_quad_scale(r: Seq<u64>, c: Seq<u64>, a: Seq<F64>
     if n > 0 {
         lemma_quad_scale(r, c, a, b, n - 1, k, m);
         let s = quad_sum(r, c, a, n - 1, m); let v = rv(a[n - 1]); let x = sval(m, r[n - 1]); let y = sval(m, c[n - 1]);
-        assert((s + v * x * y) * k == s * k + (v * k) * x * y) by(nonlinear_arith);
+        let vb = rv(b[n - 1]); let sb = quad_sum(r, c, b, n - 1, m);
+        assert(vb == v * k);
+        assert(sb == s * k);
+        assert(quad_sum(r, c, b, n, m) == sb + vb * x * y);
+        assert(quad_sum(r, c, a, n, m) == s + v * x * y);
+        assert(sb + vb * x * y == (s + v * x * y) * k) by(nonlinear_arith) requires sb == s * k, vb == v * k;
     }
 }
 pub proof fn lemma_mono_scale(c: real, k: real, ids: Seq<u64>, j: int, m: Map<u64, F64>)
